@@ -1523,6 +1523,19 @@ impl<T> TLengthProtocol for TCompactInputProtocol<T> {
     fn reset(&mut self) {}
 }
 
+/// `Bytes::split_to` panics when fewer than `len` bytes remain; a length prefix taken from the
+/// wire must produce an error instead.
+#[inline]
+fn split_to_checked(trans: &mut Bytes, len: usize) -> Result<Bytes, ThriftException> {
+    if trans.len() < len {
+        return Err(new_protocol_exception(
+            ProtocolExceptionKind::InvalidData,
+            format!("no remaining: need {} bytes, {} left", len, trans.len()),
+        ));
+    }
+    Ok(trans.split_to(len))
+}
+
 impl TInputProtocol for TCompactInputProtocol<&mut Bytes> {
     type Buf = Bytes;
 
@@ -1649,7 +1662,7 @@ impl TInputProtocol for TCompactInputProtocol<&mut Bytes> {
     #[inline]
     fn read_bytes(&mut self) -> Result<Bytes, ThriftException> {
         let size = self.read_varint::<u32>()?;
-        Ok(self.trans.split_to(size as usize))
+        split_to_checked(self.trans, size as usize)
     }
 
     #[inline]
@@ -1659,7 +1672,7 @@ impl TInputProtocol for TCompactInputProtocol<&mut Bytes> {
                 std::slice::from_raw_parts(ptr, len)
             }))
         } else {
-            Ok(self.trans.split_to(len))
+            split_to_checked(self.trans, len)
         }
     }
 
@@ -1679,7 +1692,7 @@ impl TInputProtocol for TCompactInputProtocol<&mut Bytes> {
     #[inline]
     fn read_faststr(&mut self) -> Result<FastStr, ThriftException> {
         let size = self.read_varint::<u32>()? as usize;
-        let bytes = self.trans.split_to(size);
+        let bytes = split_to_checked(self.trans, size)?;
         unsafe { Ok(FastStr::from_bytes_unchecked(bytes)) }
     }
 
@@ -1764,7 +1777,7 @@ impl TInputProtocol for TCompactInputProtocol<&mut Bytes> {
     fn read_bytes_vec(&mut self) -> Result<Vec<u8>, ThriftException> {
         let size = self.read_varint::<u32>()? as usize;
 
-        Ok(self.trans.split_to(size).into())
+        Ok(split_to_checked(self.trans, size)?.into())
     }
 
     /// Skip a field with type `field_type` recursively up to `depth` levels.
